@@ -20,9 +20,9 @@ std::vector<std::string> g_samples;
 
 std::string case_text(const tl19::Case &c) {
   std::string s = tl19::sfmt("start %a end %a min %a max %a fin %a save_at %ld "
-                             "reqs %zu:",
+                             "every_step %d reqs %zu:",
                              c.start, c.end, c.minstep, c.maxstep, c.fin,
-                             c.save_at, c.reqs.size());
+                             c.save_at, (int)c.every_step, c.reqs.size());
   for (double q : c.reqs)
     s += tl19::sfmt(" %a", q);
   return s;
@@ -257,6 +257,7 @@ tl19::Case decode(FuzzedDataProvider &p) {
   }
   const uint8_t sv = p.ConsumeIntegral<uint8_t>();
   c.save_at = (sv & 1) ? (long)((sv >> 1) % (c.reqs.size() + 1)) : -1;
+  c.every_step = (p.ConsumeIntegral<uint8_t>() % 8) == 1;
   return c;
 }
 
